@@ -23,7 +23,8 @@ PROP = "C17"
 RULE = ("Hypothesis draws histories of up to 12 steps over {edit model constant K1, edit included C file constant K2, "
         "edit kernel_header.c in a scratch copy of the package (K3), add/remove a parameter, change a default, revert a "
         "file to an earlier text, evaluate in the long-running worker process or in a fresh process, in double / single "
-        "/ long double}; every edit advances that file's mtime by whole seconds of a logical clock. Non-trivial: a load "
+        "/ long double}; the included C file sits beside the plugin or in its lib/ directory and the model is loaded "
+        "directly or through a second plugin that reparameterises it (constant K4); every edit advances that file's mtime by whole seconds of a logical clock. Non-trivial: a load "
         "that follows an edit with an earlier load of another version in the same cache; distinct by digest of the "
         "history.")
 ASSUMPTIONS = [
@@ -57,6 +58,14 @@ def plugin_text(st_):
             'Iq = "return %r*helper(q)*VERIF_K3*exp(-q*q*rr*rr)%s;"\n' % (st_["rr_default"], extra, st_.get("libname", "plug_lib.c"), st_["k1"], mult))
 
 
+def wrapper_text(st_, base_path):
+    """A second plugin that reparameterises the first one (doc/guide/plugin.rst): rr = 0.5*dd*K4."""
+    return ('from numpy import inf\nfrom sasmodels.core import reparameterize\n'
+            'parameters = [["dd", "Ang", 40.0, [0, inf], "", "diameter"]]\n'
+            'translation = """\n    rr = 0.5*dd*%r\n    """\n'
+            'model_info = reparameterize(%r, parameters, translation, __file__)\n' % (st_["k4"], base_path))
+
+
 def lib_text(st_):
     return "static double helper(double q) { return %r; }\n" % st_["k2"]
 
@@ -74,8 +83,8 @@ def histories(draw):
     n = draw(st.integers(3, 12))
     steps = []
     for _ in range(n):
-        kind = draw(st.sampled_from(["k1", "k2", "k3", "param", "default", "revert", "eval", "eval", "eval", "eval"]))
-        if kind in ("k1", "k2"):
+        kind = draw(st.sampled_from(["k1", "k2", "k3", "k4", "param", "default", "revert", "eval", "eval", "eval", "eval"]))
+        if kind in ("k1", "k2", "k4"):
             steps.append({"op": kind, "value": draw(st.sampled_from(VALS))})
         elif kind == "k3":
             steps.append({"op": "k3", "value": draw(st.sampled_from(VALS + [None]))})
@@ -84,14 +93,15 @@ def histories(draw):
         elif kind == "default":
             steps.append({"op": "default", "value": draw(st.sampled_from([10.0, 20.0, 30.0]))})
         elif kind == "revert":
-            steps.append({"op": "revert", "file": draw(st.sampled_from(["plugin", "lib", "header"]))})
+            steps.append({"op": "revert", "file": draw(st.sampled_from(["plugin", "lib", "header", "wrapper"]))})
         else:
             steps.append({"op": "eval", "where": draw(st.sampled_from(["worker", "worker", "fresh"])),
                           "dtype": draw(st.sampled_from(["double", "double", "single", "quad"])),
                           "rr": draw(st.sampled_from([None, 8.0, 12.0]))})
     steps.append({"op": "eval", "where": draw(st.sampled_from(["worker", "fresh"])), "dtype": "double", "rr": None})
     # the included C file sits beside the plugin or in a lib/ subdirectory of its own (as models/lib does)
-    return {"steps": steps, "layout": draw(st.sampled_from(["beside", "lib"]))}
+    # ... and the model is loaded directly or through a second plugin that reparameterises it (nested plugins)
+    return {"steps": steps, "layout": draw(st.sampled_from(["beside", "lib"])), "wrapper": draw(st.booleans())}
 
 
 class Driver(object):
@@ -129,21 +139,25 @@ def check_history(case, rec):
         os.makedirs(os.path.join(base, "lib"))
     plug, lib = os.path.join(base, "plug17.py"), os.path.join(base, libname)
     header = os.path.join(pkg, "sasmodels", "kernel_header.c")
-    state = {"k1": 1.5, "k2": 2.0, "k3": None, "zz": None, "rr_default": 20.0, "libname": libname}
+    state = {"k1": 1.5, "k2": 2.0, "k3": None, "zz": None, "rr_default": 20.0, "libname": libname, "k4": 1.0}
     clock = [1700000000]
-    texts = {"plugin": [], "lib": [], "header": []}     # history of (text, state-fragment)
+    texts = {"plugin": [], "lib": [], "header": [], "wrapper": []}     # history of (text, state-fragment)
+    use_wrapper = bool(case.get("wrapper"))
+    wrap = os.path.join(base, "wrap17.py")
+    rec.cls("loaded:" + ("through-wrapper-plugin" if use_wrapper else "directly"))
 
     def write(which):
-        path = {"plugin": plug, "lib": lib, "header": header}[which]
-        text = {"plugin": plugin_text, "lib": lib_text, "header": header_text}[which](state)
+        path = {"plugin": plug, "lib": lib, "header": header, "wrapper": wrap}[which]
+        text = (wrapper_text(state, plug) if which == "wrapper" else
+                {"plugin": plugin_text, "lib": lib_text, "header": header_text}[which](state))
         with open(path, "w") as fh:
             fh.write(text)
         clock[0] += 2
         os.utime(path, (clock[0], clock[0]))
         frag = {"plugin": {k: state[k] for k in ("k1", "zz", "rr_default")}, "lib": {"k2": state["k2"]},
-                "header": {"k3": state["k3"]}}[which]
+                "header": {"k3": state["k3"]}, "wrapper": {"k4": state["k4"]}}[which]
         texts[which].append(dict(frag))
-    for w in ("lib", "plugin", "header"):
+    for w in ("lib", "plugin", "header") + (("wrapper",) if use_wrapper else ()):
         write(w)
     worker = Driver(pkg, os.path.join(base, "dll"))
     libmap = {}
@@ -163,6 +177,11 @@ def check_history(case, rec):
             elif op == "k3":
                 state["k3"] = step["value"]
                 write("header")
+            elif op == "k4":
+                if not use_wrapper:
+                    continue
+                state["k4"] = step["value"]
+                write("wrapper")
             elif op == "param":
                 state["zz"] = step["value"]
                 write("plugin")
@@ -171,6 +190,8 @@ def check_history(case, rec):
                 write("plugin")
             elif op == "revert":
                 hist = texts[step["file"]]
+                if step["file"] == "wrapper" and not use_wrapper:
+                    continue
                 if len(hist) >= 2:
                     state.update(hist[-2])          # the previous version of that file
                     rec.cls("revert:" + step["file"])
@@ -180,8 +201,8 @@ def check_history(case, rec):
                 continue
             pars = {"scale": 1.0, "background": 0.0}
             if step["rr"] is not None:
-                pars["rr"] = step["rr"]
-            cmd = {"plugin": plug, "dtype": step["dtype"], "q": QS, "pars": pars}
+                pars["dd" if use_wrapper else "rr"] = step["rr"]
+            cmd = {"plugin": wrap if use_wrapper else plug, "dtype": step["dtype"], "q": QS, "pars": pars}
             if step["where"] == "worker":
                 reply = worker.ask(cmd)
             else:
@@ -199,6 +220,8 @@ def check_history(case, rec):
                 rec.fail("load-error:" + tag, "step %d: %s" % (i, reply["error"]))
                 continue
             rr = step["rr"] if step["rr"] is not None else state["rr_default"]
+            if use_wrapper:
+                rr = 0.5 * (step["rr"] if step["rr"] is not None else 40.0) * state["k4"]
             k3 = 1.0 if state["k3"] is None else state["k3"]
             want = np.array([state["k1"] * state["k2"] * k3 * np.exp(-q * q * rr * rr) for q in QS])
             if state["zz"] is not None:
@@ -209,7 +232,8 @@ def check_history(case, rec):
                 stale = "stale"
                 rec.fail("stale-result:" + tag, "step %d: got %r, current sources give %r (K1=%r K2=%r K3=%r zz=%r rr_default=%r)"
                          % (i, got, want, state["k1"], state["k2"], state["k3"], state["zz"], state["rr_default"]))
-            want_table = [["rr", state["rr_default"]]] + ([["zz", state["zz"]]] if state["zz"] is not None else [])
+            want_table = ([["dd", 40.0]] if use_wrapper else [["rr", state["rr_default"]]]) + \
+                ([["zz", state["zz"]]] if state["zz"] is not None else [])
             if reply["parameters"] != want_table:
                 rec.fail("stale-table:" + tag, "step %d: loaded table %r, current %r" % (i, reply["parameters"], want_table))
             key = reply["dllpath"]
